@@ -344,6 +344,69 @@ func c10InProc(c *caseCtx) {
 	c.distinct(fmt.Sprintf("inproc|%d|%d", c.idx, total))
 }
 
+// cold bursts: a fresh (worker) process, all goroutines released at once on requests of ONE method with diverse
+// options - lazily initialised shared state inside a method / listener / bias is hit by simultaneous first uses
+func c10ColdBurst(c *caseCtx) {
+	method := methods[c.idx%len(methods)]
+	G := 24
+	var gs []*genReq
+	var bodies [][]byte
+	for i := 0; i < 3*G; i++ {
+		o := genOpts{method: method, nBiases: c.rng.Intn(3), minCrit: 2, maxCrit: 4, minAlt: 2, maxAlt: 5}
+		if method == "choquetIntegral" {
+			o.maxCrit = 3
+		}
+		g := genRequest(c.rng, o)
+		mp := g.M["methodParameters"].(M)
+		if method == "majorityHeuristic" && mp["drawResolution"] == "" {
+			mp["drawResolution"] = pick(c.rng, drawPolicies[1:])
+		}
+		gs = append(gs, g)
+		bodies = append(bodies, g.body())
+	}
+	prefix := filepath.Join(*fWorkDir, "race-harness")
+	before, _ := raceReports(fmt.Sprintf("%s.%d", prefix, os.Getpid()))
+	res := make([]decision, len(bodies))
+	var wg sync.WaitGroup
+	gate := make(chan struct{})
+	for g := 0; g < G; g++ {
+		wg.Add(1)
+		go func(g int) {
+			defer wg.Done()
+			<-gate
+			for k := g; k < len(bodies); k += G {
+				d := decide(bodies[k], k%2 == 0)
+				d.Trace, d.Choice, d.View, d.dm = nil, nil, nil, nil
+				res[k] = d
+			}
+		}(g)
+	}
+	close(gate)
+	wg.Wait()
+	c.count("evaluations", 2*len(bodies))
+	c.count("cold_burst_decisions", len(bodies))
+	for k := range bodies {
+		b := decide(bodies[k], false)
+		if res[k].OK != b.OK || (b.OK && !bytes.Equal(res[k].JSON, b.JSON)) {
+			c.violate("differs-from-sequential", fmt.Sprintf("%s decision computed in a cold concurrent burst differs from the sequential one (accepted %v vs %v: %s)", method, res[k].OK, b.OK, res[k].Err), M{"request": gs[k].M})
+			return
+		}
+	}
+	after, distinct := raceReports(fmt.Sprintf("%s.%d", prefix, os.Getpid()))
+	if after > before {
+		var ex []string
+		for _, v := range distinct {
+			if len(ex) < 2 {
+				ex = append(ex, v)
+			}
+		}
+		c.violate("data-race", fmt.Sprintf("the race detector reported %d data races in a cold burst of %d simultaneous %s decisions", after-before, G, method), M{"reports": ex})
+		return
+	}
+	c.count("cold_bursts", 1)
+	c.distinct("cold|" + method)
+}
+
 func init() {
 	register(&propDef{
 		id: "C10",
@@ -352,12 +415,15 @@ func init() {
 			"(copies adjacent in even rounds = identical requests in flight together) - the concurrent phase runs FIRST, on the cold process, the baseline is taken " +
 			"afterwards from the same process: every response must equal the baseline byte for byte (rejections: status + body with " +
 			"bracketed name lists sorted), the process must stay alive, and the race detector log (halt_on_error=0, log_path) must contain no DATA RACE block. Stream inProc: " +
-			"race-instrumented harness, 16 goroutines deciding on the shared registries through decorators that yield / sleep 0-200us at every stage boundary. Evidence " +
+			"race-instrumented harness, 16 goroutines deciding on the shared registries through decorators that yield / sleep 0-200us at every stage boundary. Stream coldBursts: " +
+			"fresh processes in which 24 goroutines are released together on requests of one method (lazy initialisation of shared objects). Evidence " +
 			"counts overlapping request pairs (from call/return timestamps), max in flight, identical-request overlaps. distinct = distinct (methodA, methodB) pairs observed overlapping.",
 		assumptions: []string{"interleavings are sampled, not enumerated; reported as counts of observed overlaps", "gin 1.4 itself is race-clean (validated: 0 reports on the unchanged tree)"},
 		streams: []*stream{
 			{name: "server", n: tierN(3, 18), unit: 1, run: c10Server, serial: true,
 				floors: map[string]int64{"rounds": 3, "overlapping_pairs": 1500, "identical_request_overlaps": 100, "concurrent_requests": 1800}},
+			{name: "coldBursts", n: tierN(28, 280), unit: 1, run: c10ColdBurst, floors: map[string]int64{"cold_bursts": 28},
+				note: "each case is a fresh process: 24 goroutines released together on 72 requests of one method (first uses of every shared object race if unsynchronised)"},
 			{name: "inProc", n: tierN(2, 10), unit: 1, run: c10InProc, floors: map[string]int64{"inproc_rounds": 2, "inproc_concurrent_decisions": 1000}},
 		},
 	})
